@@ -107,6 +107,13 @@ func genRequestBody(t *rapid.T, mode string, depth, batch int) genReq {
 		return genReq{Method: "POST", Body: body, Class: "not-a-document", Expect: "malformed"}
 	case kind == 2: // truncation of a valid document
 		doc := genValidParams(t, mode, depth, batch).writeDoc(styleHexLower)
+		if rapid.Bool().Draw(t, "trailing") {
+			// a complete VALID document followed by something: the body as a whole is not a JSON text (RFC 8259: one value
+			// surrounded by white space only), hence not a well-formed parameter document - a decoder that stops after the
+			// first value would prove it
+			tr := pick(t, "trailer", "}", " x", "]", ",", "\n{}", " null", "\x00", "\n"+doc, "\n"+genValidParams(t, mode, depth, batch).writeDoc(styleHexLower), " 0", "\"\"")
+			return genReq{Method: "POST", Body: doc + tr, Class: "trailing-data", Expect: "malformed"}
+		}
 		off := rapid.IntRange(0, len(doc)-1).Draw(t, "cut")
 		return genReq{Method: "POST", Body: doc[:off], Class: "truncated-document", Expect: "malformed"}
 	case kind <= 5: // one field of a valid document damaged
